@@ -276,10 +276,10 @@ def solidus_check_after_reprocessing(ctx):
     f = ctx.repo.func("html5parser.py", "HTMLParser.mainLoop")
     sites = [c for c in ast.walk(f.node) if isinstance(c, ast.Call) and norm(c.func).endswith("parseError") and c.args and
              ctx.ce.try_eval(c.args[0], f.module) == "non-void-element-with-trailing-solidus"]
-    if len(sites) != 1:
-        r.idiom("R16.11", False, "solidus-check-position", f.where, "the trailing-solidus error site of mainLoop was not found (%d sites)" % len(sites))
+    if not sites:
+        r.idiom("R16.11", False, "solidus-check-position", f.where, "the trailing-solidus error site of mainLoop was not found")
         return
-    whiles = [w for w in ast.walk(f.node) if isinstance(w, ast.While) and any(x is sites[0] for x in ast.walk(w)) and "new_token" in norm(w.test)]
+    whiles = [w for w in ast.walk(f.node) if isinstance(w, ast.While) and any(x is s_ for s_ in sites for x in ast.walk(w)) and "new_token" in norm(w.test)]
     r.check("R16.11", not whiles, "solidus-check-position", "html5parser.py:%d" % sites[0].lineno,
             "the non-void-element-with-trailing-solidus test stands inside the reprocessing loop (`while %s`): a self-closing void start tag that "
             "is handed on between insertion modes -- `<!DOCTYPE html><meta charset=\"utf-8\"/>` with html and head implied -- is reported before "
@@ -606,6 +606,8 @@ def run(ctx):
 def mutants():
     from ..selftest import TextMutant as T, AstMutant as A
     return [
+        T("solidus-check-in-reprocessing-loop", "html5parser.py", "                    elif type == StartTagToken:\n                        new_token = phase.processStartTag(new_token)\n",
+          "                    elif type == StartTagToken:\n                        new_token = phase.processStartTag(new_token)\n                        if (prev_token[\"selfClosing\"] and\n                                not prev_token[\"selfClosingAcknowledged\"]):\n                            self.parseError(\"non-void-element-with-trailing-solidus\",\n                                            {\"name\": prev_token[\"name\"]})\n", "R16.11"),
         T("param-source-no-ack", "html5parser.py", "    def startTagParamSource(self, token):\n        self.tree.insertElement(token)\n        self.tree.openElements.pop()\n        token[\"selfClosingAcknowledged\"] = True\n",
           "    def startTagParamSource(self, token):\n        self.tree.insertElement(token)\n        self.tree.openElements.pop()\n", "R16.9"),
         T("div-acknowledged", "html5parser.py", "    def startTagCloseP(self, token):\n", "    def startTagCloseP(self, token):\n        token[\"selfClosingAcknowledged\"] = True\n", "R16.9"),
